@@ -373,7 +373,21 @@ def stream_tree(c, N, rational, adversarial=False):
     for q, case in enumerate(cases):
         s = tree_spec(case)
         cls = syn_class(case["mixins"])
-        r = call(lambda: Transcription(cls(spec=s)))
+        rerun = case["E"] >= 2 and case["bts"] and (q % 5 in (1, 3))
+        if rerun:
+            # history dimension: the SAME object is transcribed first with forecasts that separate every member in
+            # every window (a fully branched tree), then with the case's forecasts; the second tree and sharing
+            # pattern must be those of the current forecasts only (no node may survive from the first run)
+            first = {v: [[x + 13.0 * (m + 1) + 0.5 * ((j * (m + 2)) % 3) for j, x in enumerate(row)]
+                         for m, row in enumerate(per)] for v, per in case["cin"].items()}
+            s.cin = first
+            pr = cls(spec=s)
+            r0 = call(lambda: Transcription(pr))
+            s.cin = case["cin"]
+            r = call(lambda: Transcription(pr)) if r0[0] == "ok" else r0
+            c.hit("tree/second-run-of-one-object")
+        else:
+            r = call(lambda: Transcription(cls(spec=s)))
         tag = "tree/" + ("adversarial" if adversarial else "rational" if rational else "float")
         c.hit(tag)
         c.hit("tree/E=%d" % case["E"])
@@ -384,6 +398,8 @@ def stream_tree(c, N, rational, adversarial=False):
         if case["ctimes"]:
             c.hit("tree/control-own-times")
         view = {kk: case[kk] for kk in ("ts", "E", "k", "bts", "use", "cin_times", "cin", "controls", "ctimes", "planning")}
+        if rerun:
+            view["second_run_after_forecasts"] = first
         c.sample({"stream": tag, **view}, limit=3)
         if r[0] == "raise":
             c.fail("transcribe with ControlTreeMixin raised on a valid instance: " + r[1], view)
@@ -570,7 +586,8 @@ def run(c):
         "#branching times, #distinct non-empty member sets, #controls, planning) tuples; isolation: per parameter "
         "the member values are exact coincidences (incl. 0, 1), NEAR coincidences (relative 1e-6..1e-5, absolute "
         "~1e-8), tiny magnitudes (1e-9..1e-7, witness coefficient scaled by 2^27..2^33) or mixtures of exact and "
-        "near coincidences; adversarial tree stream: a planted configuration x < a < c < b < y (b identical to a, "
+        "near coincidences; two fifths of the tree instances are the SECOND transcription of one object whose first "
+        "run had fully separated forecasts; adversarial tree stream: a planted configuration x < a < c < b < y (b identical to a, "
         "c closer to a than a's seed x, seeds at the extreme indices) with more patterns than k, 2-3 branching "
         "times, 2-3 forecast samples per window; perturbations move one member towards / away from exact and near coincidences"
     )
